@@ -424,7 +424,9 @@ class ThingSa:
             g = sa.Column(sa.String)
             l = sa.Column(sa.String)
             a_id = sa.Column(sa.Integer, sa.ForeignKey("other.id"))
-            a = relationship(lambda: Other)
+            a = relationship(lambda: Other, foreign_keys=lambda: [Thing.a_id])
+            a2_id = sa.Column(sa.Integer, sa.ForeignKey("other.id"))                # a second route into Other
+            a2 = relationship(lambda: Other, foreign_keys=lambda: [Thing.a2_id])
             cs = relationship(lambda: Child, back_populates="thing")
 
         class Child(Base):
